@@ -189,16 +189,16 @@ Qed.
 (* the methods                                                                              *)
 (* ---------------------------------------------------------------------------------------- *)
 
-Definition with_update (upd_bip : bool) (rooted : option bool) (r : tree) : tree * option bool :=
-  if upd_bip then encode_effect rooted r else (r, rooted).
+Definition with_update (upd_bip sup : bool) (rooted : option bool) (r : tree) : tree * option bool :=
+  if upd_bip then encode_effect sup rooted r else (r, rooted).
 
 Lemma finish_eq upd_bip sup ret t rooted :
   finish upd_bip sup ret t rooted =
-  (ret, fst (with_update upd_bip rooted (if sup then fst (su_run t) else t)),
-        snd (with_update upd_bip rooted (if sup then fst (su_run t) else t))).
+  (ret, fst (with_update upd_bip sup rooted (if sup then fst (su_run t) else t)),
+        snd (with_update upd_bip sup rooted (if sup then fst (su_run t) else t))).
 Proof.
   unfold finish, with_update. destruct upd_bip.
-  - destruct (encode_effect rooted (if sup then fst (su_run t) else t)). reflexivity.
+  - destruct (encode_effect sup rooted (if sup then fst (su_run t) else t)). reflexivity.
   - reflexivity.
 Qed.
 
@@ -247,7 +247,7 @@ Theorem plwt_spec upd_bip sup t rooted : NoDup (ids t) ->
   match restrictG sup has_taxon np_true has_taxon t with
   | Some r => exists rem,
       prune_leaves_without_taxa true upd_bip sup (t, rooted) =
-      IOk (rem, fst (with_update upd_bip rooted r), snd (with_update upd_bip rooted r))
+      IOk (rem, fst (with_update upd_bip sup rooted r), snd (with_update upd_bip sup rooted r))
   | None => prune_leaves_without_taxa true upd_bip sup (t, rooted) = IErr EAttr (set_kids t [])
   end.
 Proof.
@@ -266,7 +266,7 @@ Theorem filter_leaf_nodes_spec ok upd_bip sup t rooted : NoDup (ids t) ->
   match restrictG sup (ok_pred ok) np_true (ok_pred ok) t with
   | Some r => exists rem,
       filter_leaf_nodes ok true upd_bip sup (t, rooted) =
-      IOk (rem, fst (with_update upd_bip rooted r), snd (with_update upd_bip rooted r))
+      IOk (rem, fst (with_update upd_bip sup rooted r), snd (with_update upd_bip sup rooted r))
   | None => filter_leaf_nodes ok true upd_bip sup (t, rooted) = IErr ESeedDel (set_kids t [])
   end.
 Proof.
@@ -338,7 +338,7 @@ Theorem prune_taxa_spec taxa upd_bip sup lf intn t rooted :
   NoDup (ids t) -> leaf_taxa_only t = true ->
   prune_taxa taxa upd_bip sup lf intn (t, rooted) =
   match restrict sup (p1_keep lf taxa) t with
-  | Some r => IOk ([], fst (with_update upd_bip rooted r), snd (with_update upd_bip rooted r))
+  | Some r => IOk ([], fst (with_update upd_bip sup rooted r), snd (with_update upd_bip sup rooted r))
   | None => IErr EAttr (set_kids t [])
   end.
 Proof.
@@ -351,8 +351,8 @@ Proof.
     rewrite restrictG_leaf. unfold p1_keep.
     subst t1. simpl set_kids. unfold p1_cond. simpl is_leaf. simpl t_taxon.
     assert (P : prune_leaves_without_taxa true upd_bip sup (T i (Some a) l e [], rooted) =
-                IOk ([], fst (with_update upd_bip rooted (T i (Some a) l e [])),
-                         snd (with_update upd_bip rooted (T i (Some a) l e [])))).
+                IOk ([], fst (with_update upd_bip sup rooted (T i (Some a) l e [])),
+                         snd (with_update upd_bip sup rooted (T i (Some a) l e [])))).
     { unfold prune_leaves_without_taxa. simpl lf_loop. cbv iota beta. rewrite finish_eq.
       assert (Hs : fst (su_run (T i (Some a) l e [])) = T i (Some a) l e []) by (rewrite (su_run_eq _ Hnd); reflexivity).
       destruct sup; [rewrite Hs|]; reflexivity. }
